@@ -11,6 +11,8 @@ def _key(c, r):
         return "value:" + " ".join(c["s"])
     a = c.get("abs") or {}
     if "name" in a:
+        if a["name"] == "range-adv":      # one generated universe: tell its members apart by content
+            return "project:range-adv:" + json.dumps(c["files"][0][1]["e"][0][1], sort_keys=True)[:300]
         return "project:" + a["name"]
     if "s" in a:
         return "project-of-value:" + " ".join(a["s"])
